@@ -63,7 +63,7 @@ def s_case(gran):
 
 
 def interpret(case, ctx):
-    sim = S.Sim(tape=case["tape"], granularity=case["gran"], max_steps=60000)
+    sim = S.Sim(tape=case["tape"], granularity=case["gran"], max_steps=25000)
     try:
         with sim:
             _run(case, ctx, sim)
@@ -91,7 +91,9 @@ def _run(case, ctx, sim):
     for i, a in enumerate(addrs):
         nd = net.add_node(a)
         nd.on_request = on_request
-        nd.connect_delay = case["delays"][i]
+        # (with a never-convicting policy HostConnection._replace retries a refused connection at once: an instantly
+        # refused connect would spin the executor without virtual time passing, so a refusal takes 0.1 s there)
+        nd.connect_delay = case["delays"][i] or (0.0 if case["convict"] else 0.1)
     starts = []     # (time, address, name of the virtual thread that opens the connection)
     Base = net.connection_class()
 
@@ -140,6 +142,8 @@ def _run(case, ctx, sim):
         q = ("SELECT held FROM t /*%d*/" if held else "SELECT k FROM t /*%d*/") % qn[0]
         try:
             futures.append(sim.call(s.execute_async, q))
+        except S.StepBudgetExceeded:
+            raise
         except Exception as e:  # noqa
             ctx.label("execute_async-raised:" + type(e).__name__)
         policy.order = None
@@ -255,6 +259,8 @@ def _run(case, ctx, sim):
         t = world.now
         try:
             f = sim.call(session.execute_async, "SELECT k FROM after_shutdown")
+        except S.StepBudgetExceeded:
+            raise
         except Exception as e:  # noqa
             ctx.label("after-shutdown:raises:" + type(e).__name__)
             return
@@ -296,6 +302,14 @@ def _run(case, ctx, sim):
                 ctx.fail(["C45.leak", "session"] + feats,
                          "12 s after Session.shutdown() returned %r is open and belongs neither to the control connection "
                          "nor to a live session's pool (%s)" % (c, phase))
+        if not ctx._failures and len(connects) == 1:
+            # the only session there ever was is shut down (no second connect()): nobody may open pool connections any more
+            pool_tasks = ("task:run_add_or_renew_pool", "task:_replace", "task:_retrying_replace", "task:_create_new_connection")
+            later = [r for r in starts[ret.get("starts", len(starts)):] if r[2] in pool_tasks]
+            if later:
+                ctx.fail(["C45.connect-after-shutdown", "session", str(later[0][2])],
+                         "pool connection attempts were started after Session.shutdown() of the only session had returned: %r" % (
+                             [(round(r[0] - ret["t"], 2), r[1], r[2]) for r in later],))
         if not ctx._failures:
             refused(victim, "session")
         # finally the cluster
@@ -337,6 +351,8 @@ def _run(case, ctx, sim):
         ctx.fail(["C45.connect-accepted"], "Cluster.connect() succeeded after shutdown")
     except S.Deadlock:
         ctx.fail(["C45.connect-hangs"], "Cluster.connect() after shutdown never returned")
+    except S.StepBudgetExceeded:
+        raise
     except Exception as e:  # noqa -- documented: DriverException("Cluster is already shut down")
         ctx.label("connect-after-shutdown:" + type(e).__name__)
     ran = []
